@@ -158,7 +158,6 @@ Definition can_ty (c:cfg) (t:tytok) : bool :=
   match ty_mod t with TySa => true | TyDialect d => negb (str_eqb d (cfg_sa c)) end.
 Definition can_sd (d:sdefault) : bool :=
   match d with SdStr s => str_eqb (strip_quotes s) s | _ => true end.
-Definition can_deferrable (d:option bool) : bool := match d with Some false => false | _ => true end.
 Definition can_column (c:cfg) (x:column) : bool :=
   can_ident (c_name x) && can_ty c (c_type x) && match c_default x with Some d => can_sd d | None => true end
   && can_ostr (c_comment x).
@@ -167,8 +166,8 @@ Definition can_tcons (k:tcons) : bool :=
   match k with
   | CPk cols n => nonempty_list cols && forallb can_ident cols && can_cname n
   | CFk cols _ n ou od i d _ m =>
-      forallb can_ident cols && can_cname n && can_ostr ou && can_ostr od && can_ostr i && can_deferrable d && can_ostr m
-  | CUq cols n d i => forallb can_ident cols && can_cname n && can_deferrable d && can_ostr i
+      forallb can_ident cols && can_cname n && can_ostr ou && can_ostr od && can_ostr i && can_ostr m
+  | CUq cols n d i => forallb can_ident cols && can_cname n && can_ostr i
   | CCk _ n => can_cname n
   end.
 Definition can_table (c:cfg) (t:table) : bool :=
@@ -192,7 +191,7 @@ Definition can_tbl_op (c:cfg) (tn:ident) (schema:option ident) (o:tbl_op) : bool
   | OAlterColumn a => can_alter c a
   | OCreateIndex n e u _ => can_cname n && forallb can_ixexpr e && negb (is_none u)
   | ODropIndex n _ => can_cname n
-  | OCreateUnique n cols d i => can_cname n && forallb can_ident cols && can_deferrable d && can_ostr i
+  | OCreateUnique n cols d i => can_cname n && forallb can_ident cols && can_ostr i
   | OCreateFk f => can_cname (f_name f) && can_ident (f_referent f) && forallb can_ident (f_local f) && forallb can_ident (f_remote f)
                    && oident_eqb schema (option_map (fun x => mkId x None) (f_source_schema f))
   | ODropConstraint n t => can_cname n && can_oident t
